@@ -154,13 +154,16 @@ class Tr:
         raise Unsupported(f"statement {type(s).__name__}")
 
 
-def find_method(path, cls, method):
+def find_method(path, cls, method, decorator=None):
+    """the def of cls.method; decorator = None: the first one; "property" / "<name>.setter": the def carrying exactly
+    that decorator (a property getter / setter)"""
     tree = ast.parse(open(path).read())
     for node in ast.walk(tree):
         if isinstance(node, ast.ClassDef) and node.name == cls:
             for f in node.body:
                 if isinstance(f, ast.FunctionDef) and f.name == method:
-                    return f
+                    if decorator is None or [ast.unparse(d) for d in f.decorator_list] == [decorator]:
+                        return f
     raise Unsupported(f"{cls}.{method} not found in {path}")
 
 
@@ -239,6 +242,11 @@ HEADER = ("(* GENERATED on every run by vlib/translate.py from the current sourc
 #   select   "loop_after_yield": the method is a process body `while True: yield <wait>; <statements>`; the statements
 #            run at each resumption are translated (anything else in the method: Unsupported);
 #            "sample_loop_body": `while True: yield <wait>; for x in <iterable>: <statements>`: the statements for one x
+#   guards   [(python statement, parameter, constructor_exit, constructor_go)]
+#            a listed `try: <operation> / except E: raise X` (or any statement with exactly two ways on): a boolean
+#            parameter decides; true: constructor_exit is appended and the path ends; false: constructor_go is appended
+#            and the body goes on (`try: .. = heappop(self._queue) / except IndexError: raise EmptySchedule()`)
+#   decorator "property" / "<name>.setter": the method is that property getter / setter
 #   aliases  [(python statement, name)]   `x = <object expression>` where x is afterwards only read through listed
 #            observations marked "needs:<name>" (`service_pkt = self.scheduler.packet_in_service`)
 #   ignore_stmts [python statement]   whole statements dropped (a debug block `if self.debug: ...` that only prints)
@@ -327,10 +335,11 @@ def _is_none_const(e):
 
 class FnSpec:
     def __init__(self, path, cls, method, name, reads=(), effects=(), draws=(), ret="unit", ignore_calls=("print", "dprint"),
-                 select=None, stateops=(), bindings=(), inline=(), ignore_stmts=(), aliases=()):
+                 select=None, stateops=(), bindings=(), inline=(), ignore_stmts=(), aliases=(), guards=(), decorator=None):
         self.path, self.cls, self.method, self.name, self.select = path, cls, method, name, select
         self.stateops, self.bindings, self.inline = list(stateops), list(bindings), list(inline)
         self.ignore_stmts, self.aliases = list(ignore_stmts), list(aliases)
+        self.guards, self.decorator = list(guards), decorator
         self.reads = [tuple(r) + (("",) if len(r) == 3 else ()) for r in reads]
         self.effects = [tuple(e) + (((),) if len(e) == 3 else ()) for e in effects]
         self.draws, self.ret, self.ignore_calls = list(draws), ret, set(ignore_calls)
@@ -352,6 +361,7 @@ class FxTr:
         self.volatile = {p for (_, p, _, flag) in spec.reads if flag == "volatile"}
         self.ignored = [_parse_stmt(src) for src in spec.ignore_stmts]
         self.aliases = [(_parse_stmt(src), name) for (src, name) in spec.aliases]
+        self.guards = [(_parse_stmt(src), param, c_exit, c_go) for (src, param, c_exit, c_go) in spec.guards]
         self.stateops = [(_parse_stmt(src), field, param) for (src, field, param) in spec.stateops]
         self.bindings = [(_parse_stmt(src), local, param, ty) for (src, local, param, ty) in spec.bindings]
         self.counters = {}
@@ -643,6 +653,21 @@ class FxTr:
         s, rest = stmts[0], stmts[1:]
         if any(_match(pat, s, {}) for pat in self.ignored):  # a listed debug-output statement, dropped as a whole
             return self.block(rest, env, k)
+        for (pat, param, c_exit, c_go) in self.guards:   # a listed `try: <op> / except E: raise ..`: two ways on an observation
+            if _match(pat, s, {}):
+                if self.spec.ret != "unit":
+                    raise Unsupported("a listed guard statement needs ret='unit'")
+                e_exit, e_go = self.copy(env), self.copy(env)
+                e_exit["fx"][1].append(c_exit)
+                e_exit["done"].add(c_exit)
+                e_go["fx"][1].append(c_go)
+                e_go["done"].add(c_go)
+                e_go["stale"] |= set(self.volatile)
+                saved = dict(self.counters)
+                a = k(e_exit, None)
+                self.counters = dict(saved)
+                b = self.block(rest, e_go, k)
+                return f"(if {param}\n then " + _ind(a, 6) + "\n else " + _ind(b, 6) + ")"
         for (pat, name) in self.aliases:                 # `x = <object>`: x is only read through listed observations
             if _match(pat, s, {}):                       # marked needs:<name>
                 env2 = self.copy(env)
@@ -883,8 +908,9 @@ class FxTr:
 
 def translate_fn(spec, state, record, prefix, effect_type):
     """Gallina definition of one method (FnSpec) over the shared state record / effect type"""
-    f = find_method(spec.path, spec.cls, spec.method)
-    if f.args.vararg or f.args.kwarg or f.args.kwonlyargs or f.decorator_list or f.args.defaults:
+    f = find_method(spec.path, spec.cls, spec.method, spec.decorator)
+    # default values of parameters are not translated: a parameter is read only through the observation table
+    if f.args.vararg or f.args.kwarg or f.args.kwonlyargs or (f.decorator_list and spec.decorator is None):
         raise Unsupported(f"{spec.cls}.{spec.method}: signature")
     tr = FxTr(spec, state, record, prefix, effect_type)
     stmts = list(f.body)
@@ -926,6 +952,8 @@ def translate_fn(spec, state, record, prefix, effect_type):
         ps += f" ({p} : ({t}) -> ({t}))"
     for (_, _, p, ty) in spec.bindings:
         ps += f" ({p} : {COQ_TY[ty]})"
+    for (_, p, _, _) in spec.guards:
+        ps += f" ({p} : bool)"
     rt = ([record] if state else []) + [f"list {effect_type}"] + (["bool"] if spec.ret == "bool" else [])
     src = " ".join(l.strip() for l in ast.unparse(f).splitlines()[:1])
     return (f"(* {spec.cls}.{spec.method}  ({src}) *)\n"
